@@ -639,13 +639,13 @@ def negated_static_family(rng, n):
         tm, em = env.type_manager, env.expression_manager
         T = tm.UserType("Loc")
         p = Problem("negstatic-%d" % i, env)
-        k = rng.choice([3, 3, 4])
+        arity = 2 if i % 3 != 2 else 3
+        k = rng.choice([3, 3, 4]) if arity == 2 else 3        # arity 3 over 3 objects: 27 ground instances
         objs = [Object(nm, T, env) for nm in rng.sample(["l1", "l2", "l3", "l_4", "l1_l2"], k)]
         p.add_objects(objs)
         order = list(range(k))
         rng.shuffle(order)
         start, mid, target = order[0], order[1], order[2]
-        arity = 2 if i % 3 != 2 else 3
         sig = OrderedDict([("x", T), ("y", T)] + ([("z", T)] if arity == 3 else []))
         blocked = Fluent("blocked", tm.BoolType(), sig, env)
         at = Fluent("at", tm.BoolType(), OrderedDict([("x", T)]), env)
